@@ -189,6 +189,78 @@ def process_calls(run):
     return n
 
 
+TL_XML = '''<?xml version="1.0" encoding="utf-8"?>
+<nta><declaration>int g; int ga[2]; int gr; chan c[4];</declaration>
+<template><name>T</name><parameter>int &amp;rp, int &amp;ra[2], const int k</parameter><declaration>clock x; int lv; int la[2];
+int w0() { %s return 1; }
+int w1() { if (k > 0) { return w0(); } return 2; }
+int f() { %s }
+int li2 = %s;</declaration>
+<location id="id0"><label kind="invariant">%s</label></location><location id="id1"/><branchpoint id="id2"/><init ref="id0"/>
+<transition><source ref="id0"/><target ref="id1"/><label kind="select">s : int[0, %s]</label><label kind="guard">%s</label><label kind="synchronisation">c[%s]!</label><label kind="assignment">lv = %s</label></transition>
+<transition><source ref="id0"/><target ref="id2"/></transition>
+<transition><source ref="id2"/><target ref="id1"/><label kind="probability">%s</label></transition>
+</template>
+<system>P = T(gr, ga, 1); system P;</system></nta>'''
+# what a function declared inside a template may write besides globals: the template's own variables and, through them, whatever the template's reference
+# parameters are bound to at instantiation; the twins write a local of the function and only read the others
+TL_WRITES = [('ref-parameter', 'rp = 1;', True), ('ref-parameter-inc', 'rp++;', True), ('ref-array-parameter', 'ra[0] = 1;', True), ('ref-array-parameter-loop', 'for (i : int[0,1]) ra[i] = 0;', True),
+             ('template-variable', 'lv = 1;', True), ('template-array', 'la[1] += 2;', True), ('global', 'g = 1;', True), ('global-array', 'ga[k] = 1;', True),
+             ('local~twin', 'int l = 0; l = rp + ra[0] + lv + la[1] + g;', False), ('local-array~twin', 'int l[2]; l[0] = ra[1]; for (i : int[0,1]) l[i] = la[i];', False),
+             ('local-constant~twin', 'int l = 0; l = k + 1; l++;', False), ('local-array-constant~twin', 'int l[2]; for (i : int[0,1]) l[i] = k;', False)]
+TL_CONTEXTS = ['guard', 'invariant', 'sync', 'select', 'probability', 'localinit', 'quantified-update', 'query', 'query-element']
+
+
+def template_local_writers(run):
+    """functions declared inside a template, called (directly, and one and two calls down) from every side-effect-free context the template offers and from a query"""
+    j = vlib.Job()
+    cases = []
+    for wname, wtext, writes in TL_WRITES:
+        for depth, fbody in ((0, wtext + ' return 1;'), (1, 'return w0();'), (2, 'return w1() + 1;')):
+            for ctx in TL_CONTEXTS:
+                if ctx in ('select', 'localinit') and not writes and 'constant' not in wname:
+                    continue          # a select range and an initialiser must also be computable at compile time (C13): their twins read the constant parameter only
+                call = 'f()'
+                v = dict(localinit='1', invariant='true', select='1', guard='true', sync='0', update='1', probability='1')
+                if ctx == 'guard': v['guard'] = call + ' >= 0'
+                elif ctx == 'invariant': v['invariant'] = call + ' >= 0'
+                elif ctx == 'sync': v['sync'] = call
+                elif ctx == 'select': v['select'] = call
+                elif ctx == 'probability': v['probability'] = call
+                elif ctx == 'localinit': v['localinit'] = call
+                elif ctx == 'quantified-update': v['update'] = 'sum (q : int[0,1]) (%s + q)' % call
+                xml = TL_XML % (docgen.XESC(wtext), docgen.XESC(fbody), docgen.XESC(v['localinit']), docgen.XESC(v['invariant']), docgen.XESC(v['select']), docgen.XESC(v['guard']), docgen.XESC(v['sync']),
+                                docgen.XESC(v['update']), docgen.XESC(v['probability']))
+                q = {'query': 'E<> P.f() > 0', 'query-element': 'A[] forall (i : int[0,1]) P.f() + i >= 0'}.get(ctx)
+                cases.append((wname, depth, ctx, writes, xml, q))
+                c = j.case('t%d' % (len(cases) - 1), fork=True).model('xml', xml).dump('errors')
+                if q:
+                    c.query(q, rt=False)
+                c.end()
+    rr = vlib.run_jobs(j)
+    n = 0
+    for k, (wname, depth, ctx, writes, xml, q) in enumerate(cases):
+        c = rr['t%d' % k]
+        if c['status'] != 'ok' or len(c['cmds']) < (3 if q else 2):
+            run.fail('type checker crashed on a call of a template-local function', dict(write=wname, depth=depth, context=ctx, xml=xml, status=c['status']), shape='crash:template-local-function')
+            continue
+        errs = [l for l in c['cmds'][1][2] if l.startswith('error')]
+        if q:
+            if errs:
+                run.tie_broken('the model of the template-local function block is rejected', dict(write=wname, errors=errs[:2]))
+                continue
+            rejected = not any(l.startswith('accepted 1') for l in c['cmds'][2][2])
+        else:
+            rejected = bool(errs)
+        n += 1
+        if writes and not rejected:
+            run.fail('a %s that calls the template-local function f (%d call%s above the write) is accepted although f writes %s' % (ctx, depth, '' if depth == 1 else 's', wname),
+                     dict(write=wname, depth=depth, context=ctx, xml=xml, query=q), shape='accepts-write:template-local:%s:%s' % (ctx, wname))
+        if not writes and rejected:
+            run.tie_broken('side-effect-free twin of a template-local function rejected', dict(write=wname, depth=depth, context=ctx, errors=errs[:2] or c['cmds'][2][2][:3]))
+    return n
+
+
 QB_DECL = 'int g; double dv; double w[3]; int iw() { g++; return g; } int ir() { return g; } double dw(int i) { g++; return w[i]; } double dr(int i) { return w[i] + dv; }\n'
 # (body, value kind, writes)
 QB_BODIES = [('(g = q)', 'int', True), ('g++', 'int', True), ('iw()', 'int', True), ('(q > 0 ? iw() : 0)', 'int', True), ('ir() + q', 'int', False), ('q * 2', 'int', False),
@@ -299,7 +371,7 @@ def check(run):
             nacc += 1
     if cmism:
         run.tie_broken('side-effect-free twins must be accepted (model says nothing is written)', cmism[:6] + [dict(total=len(cmism))])
-    npc = process_calls(run) + quantified_bodies(run)
+    npc = process_calls(run) + quantified_bodies(run) + template_local_writers(run)
     run.cov.update(process_call_queries=npc, evaluations=nfun + ncase + npc, distinct_nontrivial=nwriters + ncase + npc, traces_validated_against_impl=nfun + ncase + npc,
                    rule='(1) seeded random programs (2-6 functions, all statement forms, value / reference / const-reference parameters, calls to earlier functions): the changes and depends sets the type checker stores per '
                         'function vs the extracted Coq summaries; (2) %d side-effect-free contexts x %d write forms (direct, in every statement form, initialiser, return value, array element, struct field, inline-if target, '
